@@ -64,8 +64,10 @@ class DictSym(E.Val):
         self.t = z3.Const('dict_' + name, V)
 
     def keys_arr(self):
-        kf = self.keyf
-        return Arr(self.n, lambda e, s, i: E.Obj(kf(i)), taint=self.taint, name='keys_' + self.name)
+        if getattr(self, '_keys', None) is None:
+            kf = self.keyf
+            self._keys = Arr(self.n, lambda e, s, i: E.Obj(kf(i)), taint=self.taint, name='keys_' + self.name)
+        return self._keys
 
     def get(self, eng, k, st=None):
         kv = eng.to_V(k)
@@ -846,11 +848,14 @@ class ArrayTheory:
         return d
 
     def arr_compare(self, st, op, l, r, node):
+        if isinstance(op, (ast.In, ast.NotIn)) and isinstance(r, E.Obj) and r.cls == 'Domain' and self.c.get('domain_iterates_attrs'):
+            r = self.getattr(st, r, 'attrs', node)           # Domain.__contains__: `attr in self.attrs` (assumed, see contract)
         if isinstance(op, (ast.In, ast.NotIn)) and isinstance(r, Arr):
             t = self.membership(st, r, l)
             return t if isinstance(op, ast.In) else z3.Not(t)
         if isinstance(op, (ast.In, ast.NotIn)) and isinstance(r, DictSym):
-            t = r.has(self, st, l)
+            # `k in d` is membership in d.keys() (contract option: the keys are then reasoned about as a sequence)
+            t = self.membership(st, r.keys_arr(), l) if self.c.get('dict_in_is_key_membership') else r.has(self, st, l)
             return t if isinstance(op, ast.In) else z3.Not(t)
         if isinstance(l, SetV) and isinstance(r, SetV):
             sub = lambda a, b: self.all_in_term(st, a.arr, b.arr)
@@ -1052,6 +1057,8 @@ class ArrayTheory:
             it = self.arr_from_tup(it)
         if isinstance(it, DictSym):
             it = it.keys_arr()
+        if isinstance(it, E.Obj) and it.cls == 'Domain' and self.c.get('domain_iterates_attrs'):
+            it = self.getattr(st, it, 'attrs', e)          # Domain.__iter__ returns self.attrs.__iter__() (assumed, see contract)
         if not isinstance(it, Arr):
             return NotImplemented
         if self.hooks and hasattr(self.hooks, 'on_loop_bound'):
